@@ -1,13 +1,19 @@
 #!/bin/sh
-# usage: verify_seed.sh <dir with patch.diff demo.py>   (uses the scratch worktree /tmp/wtm at /repo HEAD)
+# usage: [W=/tmp/wtm] [SUITE=1] verify_seed.sh <dir with patch.diff demo.py>   (W: a scratch worktree of /repo at HEAD)
 # Confirms: patch applies, suite still 1322 passed / 11 failed, demo exits 0 without and !=0 with the patch.
 D="$1"
-W=/tmp/wtm
+W=${W:-/tmp/wtm}
+T=$(mktemp -d /tmp/vseed.XXXXXX)
+export TMPDIR=$T
 git -C $W checkout -q -- . && git -C $W clean -fdq
 cp "$D/demo.py" $W/_demo.py
-( cd $W && timeout 600 /venv/bin/python _demo.py >/tmp/wtm_demo_clean.log 2>&1 ); C=$?
-git -C $W apply "$D/patch.diff" || { echo "RESULT $D apply-failed"; exit 1; }
-( cd $W && timeout 600 /venv/bin/python _demo.py >/tmp/wtm_demo_mut.log 2>&1 ); M=$?
-S=$( cd $W && /venv/bin/python -m pytest -q -p no:cacheprovider --timeout=900 --continue-on-collection-errors -n 8 2>&1 | tail -1 )
+( cd $W && timeout 600 /venv/bin/python _demo.py >$T/clean.log 2>&1 ); C=$?
+git -C $W apply "$D/patch.diff" || { echo "RESULT $D apply-failed"; rm -rf $T; exit 1; }
+( cd $W && timeout 600 /venv/bin/python _demo.py >$T/mut.log 2>&1 ); M=$?
+S=skipped
+if [ "${SUITE:-1}" = 1 ]; then
+  S=$( cd $W && /venv/bin/python -m pytest -q -p no:cacheprovider --timeout=900 --continue-on-collection-errors -n ${JOBS:-8} 2>&1 | tail -1 )
+fi
 git -C $W checkout -q -- . ; rm -f $W/_demo.py; git -C $W clean -fdq
+rm -rf $T
 echo "RESULT $D demo_clean=$C demo_mutant=$M suite='$S'"
